@@ -36,6 +36,7 @@ def cases(ctx):
     yield from msgwork.single_cases(ctx, cids, encs)
     yield from msgwork.subset_cases(ctx, cids, encs, 14000 if quick else 500000)
     yield from msgwork.edited_config_cases(ctx, cids, encs[:4], 1500 if quick else 30000)
+    yield from msgwork.twin_cases(ctx, cids, encs)
 
 
 def judge(ctx, case):
